@@ -3,6 +3,7 @@ from lib import cfg
 from rules import common
 from rules.panic_common import run_panic_rule
 
+CRATES = ("agdb",)
 EXPLANATION = (
     "Static PANIC rule: from every Serialize::deserialize impl, every VecValue::load impl and every TryFrom<DbValue> "
     "conversion of crate agdb the workspace call-graph closure is computed and every panic-capable site in it is "
